@@ -73,9 +73,10 @@ def digitsLoop : Nat → List Char → Option Nat
 def parseDecimal (s : String) : Option Int :=
   match s.toList with
   | [] => none
-  | '+' :: ds => if ds = [] then none else (digitsLoop 0 ds).map Int.ofNat
-  | '-' :: ds => if ds = [] then none else (digitsLoop 0 ds).map (fun n => - Int.ofNat n)
-  | ds => (digitsLoop 0 ds).map Int.ofNat
+  | c :: ds =>
+    if c = '+' then (if ds = [] then none else (digitsLoop 0 ds).map Int.ofNat)
+    else if c = '-' then (if ds = [] then none else (digitsLoop 0 ds).map (fun n => - Int.ofNat n))
+    else (digitsLoop 0 (c :: ds)).map Int.ofNat
 
 def fitsBits (bits : Nat) (v : Int) : Bool := - (2 : Int) ^ (bits - 1) ≤ v && v < (2 : Int) ^ (bits - 1)
 
